@@ -470,11 +470,17 @@ def check_logic_order(run):
             want.update(real_arithmetic=True, real_difference=True)
         elif ar:
             want.update(linear=ar[0] == "L", integer_arithmetic="I" in ar[1:], real_arithmetic=ar.endswith("RA"))
-        diffs = [(f, getattr(a.theory, f), want[f]) for f in FIELDS if getattr(a.theory, f) != want[f]]
+        # judged in the direction that matters for "never labelled with a logic that cannot express it": the declaration
+        # must not promise MORE than the name (a restriction flag - linear, difference - that the name has but the
+        # declaration lacks; a feature flag that the declaration has but the name lacks)
+        RESTRICTIONS = ("linear", "integer_difference", "real_difference")
+        diffs = [(f, getattr(a.theory, f), want[f]) for f in FIELDS
+                 if (getattr(a.theory, f) and not want[f] and f not in RESTRICTIONS) or
+                    (want[f] and not getattr(a.theory, f) and f in RESTRICTIONS)]
         if st_:
             # (the string logics have no official definition: whether they include free function symbols is not judged)
             diffs = [d for d in diffs if d[0] != "uninterpreted"]
-        if bool(qf) != a.quantifier_free:
+        if bool(qf) and not a.quantifier_free:
             diffs.append(("quantifier_free", a.quantifier_free, bool(qf)))
         if diffs:
             run.fail({"subcheck": "order:logic-name-vs-declaration"}, {"a": str(a)},
